@@ -105,11 +105,7 @@ def main(args, verif_seed):
                 print("MUTANT %-34s %s: %s (exit %d, %.0fs) tests:%s %s"
                       % (m["id"], prop, "KILLED" if killed else "SURVIVED", rc, wall,
                          "pass" if tests_ok else "FAIL", (lines[0][:150] if lines else "")))
-                results.setdefault(prop, {"mutants_run": 0, "mutants_killed": 0, "survivors": []})
-                results[prop]["mutants_run"] += 1
-                results[prop]["mutants_killed"] += int(killed)
-                if not killed:
-                    results[prop]["survivors"].append(m["id"])
+                results.setdefault(prop, {})[m["id"]] = bool(killed)
         finally:
             shutil.rmtree(copy, ignore_errors=True)
     path = os.path.join(HOME, "selftest_results.json")
@@ -119,7 +115,15 @@ def main(args, verif_seed):
     except Exception:
         allres = {}
     for prop, r in results.items():
-        allres.setdefault(prop, {})["mutants"] = r
+        cur = allres.setdefault(prop, {}).get("mutants", {})
+        by_id = dict(cur.get("by_id", {})) if isinstance(cur, dict) else {}
+        by_id.update(r)
+        # forget mutants that left the catalogue
+        known = set(m["id"] for m in MUTANTS if prop in m["props"])
+        by_id = {k: v for k, v in by_id.items() if k in known}
+        allres[prop]["mutants"] = {"by_id": dict(sorted(by_id.items())), "mutants_run": len(by_id),
+                                   "mutants_killed": sum(1 for v in by_id.values() if v),
+                                   "survivors": sorted(k for k, v in by_id.items() if not v)}
     with open(path, "w") as f:
         json.dump(allres, f, indent=1, sort_keys=True)
         f.write("\n")
